@@ -110,16 +110,21 @@ class FakeChannel:
             data = request_serializer(request) if request_serializer else None
             rec = {'path': path, 'bytes': data, 'metadata': list(metadata) if metadata is not None else None,
                    'thread': threading.get_ident(), 'request': request}
+            fn = None
             with chan.lock:
                 chan.calls.append(rec)
                 ans = None
                 for suffix, answers in chan.scripts.items():
                     if path.endswith(suffix):
                         if callable(answers):
-                            ans = answers(request)
+                            fn = answers
                         elif answers:
                             ans = answers.pop(0)
                         break
+            if fn is not None:
+                # outside the lock: a real channel carries concurrent calls, and an answer that takes its time (a slow
+                # or blocked service) must not hold up the other calls in flight
+                ans = fn(request)
             if isinstance(ans, BaseException):
                 raise ans
             if callable(ans):
